@@ -236,6 +236,9 @@ func (c *Ctx) Violation(key, what string, replay interface{}) {
 				c.knownHit[key] = k.What
 			}
 			c.counters["known_finding_hits"]++
+			if os.Getenv("VERIF_SHOW_KNOWN") != "" {
+				fmt.Fprintf(os.Stderr, "known-finding hit %s [%s]: %s\n", c.ID, key, Trunc(what, 600))
+			}
 			return
 		}
 	}
